@@ -100,11 +100,26 @@ func c05Name() []byte {
 	nm := c05Sym("name", vParam("nameLen", 2))
 	if vKnown("C05-name-not-validated") {
 		vAssume(len(nm) > 0)
-		for _, c := range nm {
-			vAssume(c05IsTChar(c))
+		for i, c := range nm {
+			// CR and LF stay in play (they must be neutralised whatever else
+			// the name contains); the listed finding is about the other
+			// non-token bytes and about names that begin with whitespace
+			vAssume(c05IsTChar(c) || (i > 0 && (c == '\r' || c == '\n')))
 		}
 	}
 	return nm
+}
+
+// c05Neutral is the name a peer may see for nm: CR and LF replaced by a space.
+func c05Neutral(nm []byte) string {
+	out := make([]byte, len(nm))
+	for i, c := range nm {
+		if c == '\r' || c == '\n' {
+			c = ' '
+		}
+		out[i] = c
+	}
+	return string(out)
 }
 
 var c05Special = [...]string{"Content-Type", "Content-Length", "Connection", "Server", "Set-Cookie", "Transfer-Encoding", "Trailer", "Date", "Host", "User-Agent", "Cookie", "Content-Encoding"}
@@ -124,18 +139,21 @@ func c05Asserts(r c05Result, maxLines int) {
 func vhC05ResponseSetters() {
 	var h ResponseHeader
 	h.noDefaultDate = true
+	if vBool("disableNormalizing") {
+		h.DisableNormalizing()
+	}
 	vl := vParam("valLen", 3)
 	allowed := append([]string(nil), c05Implied...)
-	which := vChoose("setter", 9)
+	which := vChoose("setter", 10)
 	switch which {
 	case 0:
 		nm, v := c05Name(), c05Sym("value", vl)
 		h.Set(string(nm), string(v))
-		allowed = append(allowed, string(nm))
+		allowed = append(allowed, string(nm), c05Neutral(nm))
 	case 1:
 		nm, v := c05Name(), c05Sym("value", vl)
 		h.Add(string(nm), string(v))
-		allowed = append(allowed, string(nm))
+		allowed = append(allowed, string(nm), c05Neutral(nm))
 	case 2:
 		h.SetContentTypeBytes(c05Sym("value", vl))
 	case 3:
@@ -147,13 +165,15 @@ func vhC05ResponseSetters() {
 	case 6:
 		nm, v := c05Name(), c05Sym("value", vl)
 		h.SetBytesKV(nm, v)
-		allowed = append(allowed, string(nm))
+		allowed = append(allowed, string(nm), c05Neutral(nm))
 	case 7:
 		sp := c05Special[vChoose("special", len(c05Special))]
 		h.Set(sp, string(c05Sym("value", vl)))
 	case 8:
 		sp := c05Special[vChoose("special", len(c05Special))]
 		h.Add(sp, string(c05Sym("value", vl)))
+	case 9:
+		h.SetTrailerBytes(c05Sym("value", vl)) //nolint:errcheck
 	}
 	out := h.Header()
 	// status line + at most (the set line, Content-Type and Content-Length
@@ -165,18 +185,21 @@ func vhC05ResponseSetters() {
 // URI, host, user agent and protocol.
 func vhC05RequestSetters() {
 	var h RequestHeader
+	if vBool("disableNormalizing") {
+		h.DisableNormalizing()
+	}
 	vl := vParam("valLen", 3)
 	allowed := append([]string(nil), c05Implied...)
-	which := vChoose("setter", 11)
+	which := vChoose("setter", 12)
 	switch which {
 	case 0:
 		nm, v := c05Name(), c05Sym("value", vl)
 		h.Set(string(nm), string(v))
-		allowed = append(allowed, string(nm))
+		allowed = append(allowed, string(nm), c05Neutral(nm))
 	case 1:
 		nm, v := c05Name(), c05Sym("value", vl)
 		h.Add(string(nm), string(v))
-		allowed = append(allowed, string(nm))
+		allowed = append(allowed, string(nm), c05Neutral(nm))
 	case 2:
 		h.SetMethodBytes(c05Sym("value", vl))
 	case 3:
@@ -197,6 +220,8 @@ func vhC05RequestSetters() {
 		allowed = append(allowed, "Referer")
 	case 10:
 		h.SetCookieBytesKV(c05Sym("ckey", 2), c05Sym("value", vl))
+	case 11:
+		h.SetTrailerBytes(c05Sym("value", vl)) //nolint:errcheck
 	}
 	out := h.Header()
 	c05Asserts(c05Scan(out, allowed), 7)
